@@ -97,7 +97,62 @@ fn ff_of(spdc: &SPDC, ws: Frequency, wi: Frequency) -> f64 {
   *(0.5 * cs.length * dk / RAD)
 }
 
+/// `vharness c05 singles <seed> <n>`: observations for the GENERATED singles integrand (coq/Gen/PMSingles.v; consumer
+/// vlib/pmcases.py: singles_cases).  phasematch_singles_fiber_coupling exposes only 1/4 |quadrature of the integrand|; with
+/// Integrator::GaussLegendre { degree: 2 } the quadrature is a 4-node sum whose nodes and weights are read off by probing
+/// integrate2d with recording / indicator integrands, so the value is a known linear functional of four integrand values.
+pub fn run_singles(args: &[String]) {
+  use std::sync::Mutex;
+  let seed = arg_u64(args, 0, 1);
+  let n = arg_u64(args, 1, 2) as usize;
+  let mut rng = Rng::new(seed ^ 0x51);
+  let gl = Integrator::GaussLegendre { degree: 2 };
+  let rec: Mutex<Vec<(f64, f64)>> = Mutex::new(vec![]);
+  let _ = gl.integrate2d(|z: f64, w: f64| { rec.lock().unwrap().push((z, w)); Complex::new(1., 0.) }, -1., 1., -1., 1.);
+  let mut nodes: Vec<(f64, f64)> = rec.lock().unwrap().clone();
+  nodes.sort_by(|a, b| a.partial_cmp(b).unwrap());
+  nodes.dedup();
+  let weights: Vec<f64> = nodes.iter().map(|(a, b)| {
+    let (a, b) = (*a, *b);
+    gl.integrate2d(move |z: f64, w: f64| Complex::new(if z == a && w == b { 1. } else { 0. }, 0.), -1., 1., -1., 1.).re
+  }).collect();
+  emit(json!({"kind": "gl2", "nodes": nodes.iter().map(|(a, b)| json!([fx(*a), fx(*b)])).collect::<Vec<_>>(), "weights": fxs(&weights)}));
+  let mut made = 0;
+  let mut tries = 0;
+  while made < n && tries < 40 * n + 40 {
+    tries += 1;
+    let g = crate::c06::Gen { collinear: rng.below(4) == 0, min_waist: 30e-6, max_waist: 400e-6, apodize: true, equal_waists: false, elliptic: rng.coin() };
+    let (spdc, desc) = match crate::c06::random_setup(&mut rng, &g) {
+      Ok(x) => x,
+      Err(e) => { emit(json!({"kind": "skip", "why": e})); continue; }
+    };
+    let sigma = fwhm_to_spectral_width(spdc.pump.vacuum_wavelength(), spdc.pump_bandwidth);
+    let ws = spdc.signal.frequency() + rng.range(-0.5, 0.5) * sigma;
+    let wi = spdc.idler.frequency() + rng.range(-0.5, 0.5) * sigma;
+    let zs: Vec<f64> = {
+      let mut v: Vec<f64> = nodes.iter().map(|x| x.0).chain(nodes.iter().map(|x| x.1)).collect();
+      v.sort_by(|a, b| a.partial_cmp(b).unwrap());
+      v.dedup();
+      v
+    };
+    let r = guarded(|| {
+      let p = dump_params(&spdc, ws, wi, &zs);
+      let v = *(phasematch_singles_fiber_coupling(ws, wi, &spdc, gl) / PerMeter3::new(1.));
+      let vd = *(phasematch_singles_fiber_coupling(ws, wi, &spdc, Integrator::default()) / PerMeter3::new(1.));
+      (p, v, vd)
+    });
+    match r {
+      Ok((p, v, vd)) => { made += 1; emit(json!({"kind": "sgl", "setup": desc, "zs": fxs(&zs), "p": p, "gl2": fx(v), "default": fx(vd)})); }
+      Err(e) => emit(json!({"kind": "sgl_panic", "setup": desc, "why": e})),
+    }
+  }
+  emit(json!({"kind": "done"}));
+}
+
 pub fn run(args: &[String]) {
+  if args.first().map(|s| s.as_str()) == Some("singles") {
+    return run_singles(&args[1..]);
+  }
   let seed = arg_u64(args, 0, 1);
   let n_pw = arg_u64(args, 1, 12) as usize;
   let n_pt = arg_u64(args, 2, 4) as usize;
